@@ -387,6 +387,15 @@ def restore_fault_cases(out, tier, rng=None, harness=None):
                 wb = sorted(set(contents_of(wide)))
                 cases.append((wide, ("A",), r.sample(wb, nmiss))); stats["multi_faults"] += 1
                 cases.append((wide, ("A",), r.sample(wb, nmiss), True)); stats["midstream_read_faults"] = stats.get("midstream_read_faults", 0) + 1
+        if n == 0:
+            # ... and wide directories restored WITHOUT any fault (more files than any plausible limit on concurrent downloads:
+            # 32, 64, 128, 1024): every file must be there afterwards, whatever was in the way before
+            for nf in (33, 34, 65, 130, 300, 1100):
+                wide = [("f", b"w%04d" % k, b"content-%04d" % k, 0o644) for k in range(nf)]
+                cases.append((wide, ("A",), [])); stats["fault_free_wide"] = stats.get("fault_free_wide", 0) + 1
+                cases.append((wide, perturb(r, wide, "modified"), [])); stats["fault_free_wide"] += 1
+                deep = [("d", b"d%d" % (k % 3), [("f", b"w%04d" % j, b"content-%04d" % j, 0o644) for j in range(k, nf, 3)]) for k in range(3)]
+                cases.append((deep, ("A",), [])); stats["fault_free_wide"] += 1
         if n % 5 == 0:   # nothing to restore: faults must not matter
             cases.append((tree, ("D", copy.deepcopy(tree)), blobs))
     mids = [len(c) > 3 and c[3] for c in cases]
@@ -414,7 +423,7 @@ def restore_fault_cases(out, tier, rng=None, harness=None):
         elif cls == "ok":
             if parse_listing(f[3]) != parse_listing(f[2]):
                 out.violation("restore with %s cache entries reported success but the directory differs from what was cached" % (
-                    "unreadable (read error half way)" if mids[i] else "deleted"), rp)
+                    "no unreadable or deleted" if not m else "unreadable (read error half way)" if mids[i] else "deleted"), rp)
         if cls in ("ok", "error", "hang") and mo[0] == "ok" and mo[1] != cls:
             stats["model_mismatches"] += 1
             if not any(not v["no_input"] for v in out.violations):
